@@ -34,6 +34,8 @@ def case_spec(prop, seed, i):
     rnd = gen.rng_for(prop, seed, i)
     r = rnd.random()
     acc = 0
+    if r > .95:
+        return 'necessary_conflict', gen.gen_necessary_conflict(rnd)
     for name, w, kw in PROFILES[prop]:
         acc += w
         if r < acc:
